@@ -195,6 +195,9 @@ macro_rules! generate_method_for_document_type {
         .to_owned();
 
       // Insert method into document and handle error upon failure.
+      // `remove_method` would also remove references to the method's id that were in the document before this call:
+      // roll back to a snapshot of the document instead.
+      let snapshot: $t = document.clone();
       if let Err(error) = document
         .insert_method(method, scope)
         .map_err(|_| Error::FragmentAlreadyExists)
@@ -209,7 +212,7 @@ macro_rules! generate_method_for_document_type {
         .map_err(Error::KeyIdStorageError)
       {
         // Remove the method from the document as it can no longer be used.
-        let _ = document.remove_method(&method_id);
+        *document = snapshot;
         return Err(try_undo_key_generation(storage, &key_id, error).await);
       }
 
